@@ -40,6 +40,12 @@ def main(tier):
         for i, src in enumerate(beh[nm]):
             pairs.append((f"{nm}#{i}", src, a["rzil"][i], b["rzil"][i], None, nm))
     gi = outfamily.generated_items(run.seed, tier, "layouts")
+    from .. import findings, gen as _gen
+
+    for it in _gen.fold_programs(random.Random(run.seed), 12):
+        if it["name"].startswith(("dead;", "cond;", "sizeof;")):
+            gi.append(dict(name="fold:" + it["name"], text=it["text"]))
+    gi += [dict(name="fold:deadexpr0", text="{ RdV = sizeof(RsV + 1) + RtV; }"), dict(name="fold:deadexpr1", text="{ RdV = 0 ? clz32(RsV + 1) : RtV + 2; }")]
     gres = {l: S.compile_stmts([dict(text=it["text"], layout=l, subs=it.get("subs", [])) for it in gi]) for l in layouts}
     for k, it in enumerate(gi):
         a, b = gres["rs"][k], gres["ec"][k]
@@ -103,10 +109,13 @@ def main(tier):
         if r["decls"] >= 3:
             nontrivial += 1
         for lay, probs in r["problems"]:
-            if lay == "ec" and not any(l == "rs" for l, _ in r["problems"]):
+            if pr[0].startswith("fold:") and findings.output_signature(pr[1], [x for x in probs if x]) and "dead_arm_operand" in run.findings:
+                run.known("dead_arm_operand", {"source": pr[1], "layout": lay, "problems": probs[:2]})
+                continue
+            if pr[0].startswith("fold:") or (lay == "ec" and not any(l == "rs" for l, _ in r["problems"])):
                 run.violation(f"{pr[0]}: the EXEC_CLASSES text is not well-formed/linear/well-sorted although the READ_STATEMENTS text is: {probs[0]}",
                               {"kind": "layout_illformed", "name": pr[0], "src": pr[1], "ec": pr[3], "problems": probs}, key="illformed:" + pr[5])
-        if r["struct_equal"] is False:
+        if r["struct_equal"] is False and not pr[0].startswith("fold:"):
             run.violation(f"{pr[0]}: resolved effect terms of the two layouts differ structurally", {"kind": "structure", "name": pr[0], "src": pr[1], "rs": pr[2], "ec": pr[3]}, key="struct:" + pr[5])
         elif r["struct_equal"]:
             struct_eq += 1
